@@ -19,7 +19,8 @@
    NOT covered by the theorems (search by xmloracle; open findings K59-K64): what parse.ReplaceEntities makes of character
    and entity references inside a token (run, not modelled: ]]&gt; -> ]]>), `]]>` formed across adjacent pieces,
    PI data and DOCTYPE internals mis-lexed by the dependency, CRLF in attribute values. *)
-From MV Require Import Base.MvBytes Base.Ws Xml.XmlModel Xml.XmlSpec Xml.XmlProofs Xml.XmlEscape.
+From MVGen Require Import Tables_gen.
+From MV Require Import Base.MvBytes Base.Ws Xml.XmlModel Xml.XmlSpec Xml.XmlProofs Xml.XmlEscape Tables.TablesCheck.
 
 Theorem xml_runs_preserved : forall keepws ts, wf_tokens ts ->
   Forall2 item_equiv (merge (out_items (minify_pieces keepws true 0 ts))) (merge (in_items keepws 0 ts)).
@@ -63,6 +64,17 @@ Theorem collapse_keeps_words : forall l,
   no_double_ws (collapse l) = true.
 Proof. intros l. repeat split; [apply words_collapse | apply collapse_starts_ws | apply collapse_ends_ws | apply collapse_no_double_ws]. Qed.
 Print Assumptions collapse_keeps_words.
+
+(* the tables xml.go hands to the dependency's reference decoder (regenerated from xml/table.go on every run): every
+   named entity it decodes is a predefined XML entity with that meaning; every reverse escape decodes to exactly its
+   character; in attribute values < & TAB LF CR stay escaped *)
+Theorem xml_tables_ok :
+  (forall e, In e xml_entities -> xml_entity_ok e = true) /\
+  (forall e, In e xml_text_rev_entities -> xml_rev_entity_ok e = true) /\
+  (forall e, In e xml_attr_rev_entities -> xml_attr_rev_entity_ok e = true) /\
+  xml_attr_rev_complete xml_attr_rev_entities = true.
+Proof. repeat split; try apply forallb_forall; vm_compute; reflexivity. Qed.
+Print Assumptions xml_tables_ok.
 
 (* non-vacuity: `a <!--c--> b` keeps its word boundary, and the hypothesis is satisfied by a real token list *)
 Example xml_nonvacuous :
